@@ -53,7 +53,7 @@ Proof. vm_compute. discriminate. Qed.
 Example ex_cut_right_inside :
   content_text 1 1 8 4 4 2 ex_lines 1 0 (Some 3) (Some 2)
   = [ spaces 3 ++ [TNul; TNul];
-      [TChar GSpace; TBg red; TFg green; TChar GUpper; TNul; TChar GUpper; TSgr0; TNul; TNul] ].
+      [TChar GSpace; TBg red; TFg green; TChar GUpper; TChar GUpper; TSgr0; TNul; TNul] ].
 Proof. vm_compute. reflexivity. Qed.
 
 (** a cut wholly inside the right padding and the bottom padding *)
